@@ -315,6 +315,9 @@ func clipSlices(v reflect.Value, depth int) { walkSlices(v, depth, false) }
 // growSlices gives every non-empty slice reachable from v spare capacity.
 func growSlices(v reflect.Value, depth int) { walkSlices(v, depth, true) }
 
+// growEmpty: empty lists get spare capacity too (set per run)
+var growEmpty bool
+
 func walkSlices(v reflect.Value, depth int, grow bool) {
 	if depth > 8 {
 		return
@@ -333,7 +336,15 @@ func walkSlices(v reflect.Value, depth int, grow bool) {
 			walkSlices(f, depth+1, grow)
 		}
 	case reflect.Slice:
-		if v.IsNil() || v.Type().Elem().Kind() == reflect.Uint8 {
+		if v.Type().Elem().Kind() == reflect.Uint8 {
+			return
+		}
+		if grow && growEmpty && v.Len() == 0 {
+			// an emptied list (l = l[:0]) or make(T, 0, n): no elements, spare capacity
+			v.Set(reflect.MakeSlice(v.Type(), 0, 3))
+			return
+		}
+		if v.IsNil() {
 			return
 		}
 		n := v.Len()
@@ -848,6 +859,7 @@ func execC12(sc *core.Scenario) *core.Result {
 		if sc.Run%4 == 1 {
 			shareContacts(m) // one person reachable twice inside the value (a DAG, not a tree)
 		}
+		growEmpty = sc.Run%4 == 3
 		if sc.Run%2 == 0 {
 			clipSlices(reflect.ValueOf(m), 0) // slices without spare capacity (len == cap), as literals and exact allocations have
 		} else {
